@@ -64,6 +64,7 @@ type c12Add struct {
 	Encodable bool
 	Expected  any
 	Arrival   int // adapter arrival number when stored, 0 = not stored
+	Task      int // submitting task
 }
 
 func (w *c12World) add(clause string, seq uint64, format string, a ...any) {
@@ -284,7 +285,7 @@ func c12Run[T any](seed uint64, tier string, gen func(r *simrt.Rand) T) (*Episod
 			simrt.GoHarness("producer", func() {
 				for _, x := range s {
 					exp, enc := expectedOf(x.v)
-					a := c12Add{ID: x.id, Inv: wd.rec.stamp(), Encodable: enc, Expected: exp}
+					a := c12Add{ID: x.id, Inv: wd.rec.stamp(), Encodable: enc, Expected: exp, Task: simrt.CurID()}
 					before := ad.arrival
 					a.OK = add(x.v, x.prio, x.id)
 					a.Ret = wd.rec.stamp()
@@ -353,13 +354,16 @@ func c12Judge[T any](ep *Episode, cw *c12World) {
 		byID[a.ID] = a
 		stored := false
 		for _, c := range ad.calls {
-			if c.Op == "enq" && c.OK && c.Seq > a.Inv && c.Seq < a.Ret && c.Task >= 0 {
+			if c.Op == "enq" && c.OK && c.Seq > a.Inv && c.Seq < a.Ret && c.Task == a.Task {
 				stored = true
 			}
 		}
 		if !a.Encodable {
 			if a.OK {
 				cw.add("C12.b", a.Ret, "Add of an unencodable payload (id %q) returned true", a.ID)
+			}
+			if stored {
+				cw.add("C12.b", a.Ret, "Add of an unencodable payload (id %q) was refused, but the submitting task stored an entry in the backend during the call: a rejected submission must have no effect", a.ID)
 			}
 			continue
 		}
